@@ -399,21 +399,31 @@ Section Correct.
       destruct (H_binop o Hb) as (_ & Hl & _ & _ & Hm & _). eauto.
   Qed.
 
-  Lemma Q : forall n rest, (length rest <= n)%nat -> forall u0 done rbp B tail,
+  Lemma headok_tail' : forall rest tail, tail_ok rest -> headok tail -> headok (tail_tokens rest ++ tail).
+  Proof.
+    intros. destruct rest as [|[o u] rest]; cbn; auto.
+    inversion H; subst. destruct H3 as (Hb & _). cbn in Hb.
+    destruct (H_binop o Hb) as (_ & Hl & _ & _ & Hm & _). eauto.
+  Qed.
+
+  (* the led loop over a tail of (operator, unit) pairs, in continuation form: whatever the loop
+     does with the tokens `tail` once the tree of everything read so far is the oracle's tree *)
+  Lemma Qc : forall n rest, (length rest <= n)%nat -> forall u0 done rbp B tail res m,
     unit_ok u0 -> tail_ok done -> tail_ok rest ->
     (forall o, In o (ops rest) -> rbp < L o) ->
     (forall o, In o (ops done) -> B < L o \/ (L o = B /\ rassoc o = false)) ->
     (match rest with p :: _ => L (fst p) <= B | [] => True end) ->
-    0 <= rbp <= maxr -> stops rbp tail ->
-    Loop rbp (split_alt (u0, done)) (tail_tokens rest ++ tail) (split_alt (u0, done ++ rest), tail)
-         (2 * length (tail_tokens rest) + 1).
+    0 <= rbp <= maxr ->
+    (forall o, In o (ops rest) -> stops (R o) tail) -> headok tail -> (1 <= m)%nat ->
+    Loop rbp (split_alt (u0, done ++ rest)) tail res m ->
+    Loop rbp (split_alt (u0, done)) (tail_tokens rest ++ tail) res (2 * length (tail_tokens rest) + m).
   Proof.
-    induction n as [|n IH]; intros rest Hlen u0 done rbp B tail Hu0 Hdone Hrest Hall Hinv Hfirst Hrbp Hstop.
+    induction n as [|n IH]; intros rest Hlen u0 done rbp B tail res m Hu0 Hdone Hrest Hall Hinv Hfirst Hrbp Hmore Hhead Hm Hk.
     - destruct rest; [|cbn in Hlen; lia]. cbn [PrattSpec.tail_tokens flat_map app length].
-      rewrite app_nil_r. eapply Loop_weaken. apply Loop_end; auto. lia.
+      rewrite app_nil_r in Hk. eapply Loop_weaken. exact Hk. lia.
     - destruct rest as [|[o u1] rest'].
       { cbn [PrattSpec.tail_tokens flat_map app length].
-        rewrite app_nil_r. eapply Loop_weaken. apply Loop_end; auto. lia. }
+        rewrite app_nil_r in Hk. eapply Loop_weaken. exact Hk. lia. }
       cbn [length] in Hlen.
       inversion Hrest as [|? ? Ho Hrest']; subst. destruct Ho as (Hb & Hu1). cbn [fst snd] in Hb, Hu1.
       destruct (H_binop o Hb) as ((h & Hled) & Hlbp & Hr1 & Hr2 & Hlm & Hr0 & Hrm & Hras).
@@ -426,8 +436,7 @@ Section Correct.
       assert (Hrbp_o : rbp < L o) by (apply Hall; left; auto).
       assert (Hstop' : stops (R o) (tail_tokens rest'' ++ tail)).
       { destruct rest'' as [|[o2 u2] r2] eqn:Er.
-        - cbn. destruct tail as [|t tl]; cbn; auto. destruct Hstop as (l & Hl & Hm & Hle).
-          exists l. repeat split; auto. lia.
+        - cbn. apply Hmore. left; reflexivity.
         - cbn. inversion Hr''ok; subst. destruct H1 as (Hb2 & _). cbn in Hb2.
           destruct (H_binop o2 Hb2) as (_ & Hl2 & _ & _ & Hm2 & _). cbn in Hnext.
           exists (L o2). repeat split; auto. }
@@ -443,23 +452,31 @@ Section Correct.
                     = (1 + (length ps + 1 + length qs) + length (tail_tokens x) + length (tail_tokens rest''))%nat).
       { pose proof (f_equal (@length tok) Htoks) as Hl.
         cbn [length] in Hl. repeat (rewrite app_length in Hl; cbn [length] in Hl). lia. }
-      rewrite Htoks, Hlt.
-      eapply Loop_weaken.
-      + eapply Loop_bin with (x := split_alt (mkUnit ps a qs, x)) (rest' := tail_tokens rest'' ++ tail).
-        * exact Hlbp.
-        * exact Hrbp_o.
-        * exact Hled.
-        * apply unit_U2; auto.
-          -- eapply headok_tail with (rest := x ++ rest'') (rbp := rbp) in Hstop.
-             2:{ apply tail_ok_app; auto. }
-             rewrite tail_tokens_app, <- app_assoc in Hstop. exact Hstop.
-          -- apply (IH x ltac:(lia) (mkUnit ps a qs) [] (R o) maxl (tail_tokens rest'' ++ tail)); auto.
-             ++ repeat split; auto.
-             ++ constructor.
-             ++ intros z [].
-             ++ destruct x as [|[ox ux] x']; auto. inversion Hxok; subst. destruct H1 as (Hbx & _).
-                cbn in Hbx. destruct (H_binop ox Hbx) as (_ & _ & _ & _ & Hm & _). exact Hm.
-        * assert (Hroot : split_alt (u0, done ++ (o, mkUnit ps a qs) :: x)
+      (* the right operand: the loop at level R o over x, ending in front of rest'' *)
+      assert (HallX : forall z, In z (ops x) -> R o < L z) by exact Hgt.
+      assert (HfirstX : match x with p :: _ => L (fst p) <= maxl | [] => True end).
+      { destruct x as [|[ox ux] x']; auto. inversion Hxok; subst. destruct H1 as (Hbx & _).
+        cbn in Hbx. destruct (H_binop ox Hbx) as (_ & _ & _ & _ & Hmx & _). exact Hmx. }
+      assert (HmoreX : forall z, In z (ops x) -> stops (R z) (tail_tokens rest'' ++ tail)).
+      { intros z Hz. assert (Hzl := Hgt z Hz).
+        assert (Hbz : is_binop z = true).
+        { unfold ops in Hz. apply in_map_iff in Hz. destruct Hz as ([z' uz] & Hz1 & Hz2). cbn in Hz1. subst z'.
+          unfold tail_ok in Hxok. rewrite Forall_forall in Hxok. apply (Hxok _ Hz2). }
+        destruct (H_binop z Hbz) as (_ & _ & Hz1 & _).
+        destruct rest'' as [|[o2 u2] r2] eqn:Er.
+        - cbn. apply Hmore. right. rewrite Hsplit. unfold ops. rewrite map_app. apply in_or_app. left. exact Hz.
+        - destruct Hstop' as (l & Hl & Hlm' & Hle). exists l. repeat split; auto. lia. }
+      assert (HheadX : headok (tail_tokens rest'' ++ tail)) by (apply headok_tail'; auto).
+      assert (HQx : Loop (R o) (split_alt (mkUnit ps a qs, [])) (tail_tokens x ++ (tail_tokens rest'' ++ tail))
+                         (split_alt (mkUnit ps a qs, [] ++ x), tail_tokens rest'' ++ tail)
+                         (2 * length (tail_tokens x) + 1)).
+      { apply (IH x ltac:(lia) (mkUnit ps a qs) [] (R o) maxl (tail_tokens rest'' ++ tail) _ 1%nat); auto.
+        - repeat split; auto.
+        - constructor.
+        - intros z [].
+        - apply Loop_end. exact Hstop'. }
+      cbn [app] in HQx.
+      assert (Hroot : split_alt (u0, done ++ (o, mkUnit ps a qs) :: x)
                           = Bin o (split_alt (u0, done)) (split_alt (mkUnit ps a qs, x))).
           { apply split_root.
             - intros z Hz. unfold ops in Hz. apply in_map_iff in Hz. destruct Hz as ([z' uz] & Hz1 & Hz2).
@@ -488,13 +505,11 @@ Section Correct.
                 { rewrite (H_uniform y o Hby Hb E). rewrite Hras. apply Z.ltb_lt. lia. }
                 rewrite H. cbn. apply andb_false_r.
               + replace (L y =? L o) with false by (symmetry; apply Z.eqb_neq; auto). reflexivity. }
-          rewrite <- Hroot.
-          replace (done ++ (o, mkUnit ps a qs) :: rest') with ((done ++ (o, mkUnit ps a qs) :: x) ++ rest'')
-            by (rewrite <- app_assoc; cbn [app]; rewrite <- Hsplit; reflexivity).
-          apply (IH rest'' ltac:(lia) u0 (done ++ (o, mkUnit ps a qs) :: x) rbp (R o) tail); auto.
-          -- apply tail_ok_app. split; auto. constructor; auto. split; auto. repeat split; auto.
-          -- intros z Hz. apply Hall. right. rewrite Hsplit. unfold ops. rewrite map_app. apply in_or_app. right. exact Hz.
-          -- intros z Hz. unfold ops in Hz. rewrite map_app in Hz. apply in_app_or in Hz. cbn [map fst] in Hz.
+      (* the rest of the loop at this level *)
+      assert (HinvR : forall z, In z (ops (done ++ (o, mkUnit ps a qs) :: x)) ->
+                R o < L z \/ (L z = R o /\ rassoc z = false)).
+      {
+        intros z Hz. unfold ops in Hz. rewrite map_app in Hz. apply in_app_or in Hz. cbn [map fst] in Hz.
              destruct Hz as [Hz|[Hz|Hz]].
              ++ assert (Hi := Hinv z Hz). cbn [fst] in Hfirst.
                 destruct Hi as [Hi|(Hi1 & Hi2)]; [left; lia|].
@@ -508,7 +523,47 @@ Section Correct.
                 ** right. split; auto. rewrite Hras. apply Z.ltb_ge. lia.
                 ** left. lia.
              ++ left. apply Hgt. exact Hz.
+      }
+      assert (HQr : Loop rbp (split_alt (u0, done ++ (o, mkUnit ps a qs) :: x)) (tail_tokens rest'' ++ tail) res
+                         (2 * length (tail_tokens rest'') + m)).
+      { apply (IH rest'' ltac:(lia) u0 (done ++ (o, mkUnit ps a qs) :: x) rbp (R o) tail res m); auto.
+        - apply tail_ok_app. split; auto. constructor; auto. split; auto. repeat split; auto.
+        - intros z Hz. apply Hall. right. rewrite Hsplit. unfold ops. rewrite map_app. apply in_or_app. right. exact Hz.
+        - intros z Hz. apply Hmore. right. rewrite Hsplit. unfold ops. rewrite map_app. apply in_or_app. right. exact Hz.
+        - replace ((done ++ (o, mkUnit ps a qs) :: x) ++ rest'') with (done ++ (o, mkUnit ps a qs) :: rest')
+            by (rewrite <- app_assoc; cbn [app]; rewrite <- Hsplit; reflexivity).
+          exact Hk. }
+      rewrite Htoks, Hlt.
+      eapply Loop_weaken.
+      + eapply Loop_bin with (x := split_alt (mkUnit ps a qs, x)) (rest' := tail_tokens rest'' ++ tail).
+        * exact Hlbp.
+        * exact Hrbp_o.
+        * exact Hled.
+        * apply unit_U2; auto.
+          -- rewrite app_assoc, <- tail_tokens_app. apply headok_tail'; auto. apply tail_ok_app; auto.
+          -- exact HQx.
+        * rewrite <- Hroot. exact HQr.
       + lia.
+  Qed.
+
+  Lemma Q : forall n rest, (length rest <= n)%nat -> forall u0 done rbp B tail,
+    unit_ok u0 -> tail_ok done -> tail_ok rest ->
+    (forall o, In o (ops rest) -> rbp < L o) ->
+    (forall o, In o (ops done) -> B < L o \/ (L o = B /\ rassoc o = false)) ->
+    (match rest with p :: _ => L (fst p) <= B | [] => True end) ->
+    0 <= rbp <= maxr -> stops rbp tail ->
+    Loop rbp (split_alt (u0, done)) (tail_tokens rest ++ tail) (split_alt (u0, done ++ rest), tail)
+         (2 * length (tail_tokens rest) + 1).
+  Proof.
+    intros. eapply (Qc n rest H u0 done rbp B tail _ 1%nat); eauto.
+    - intros o Ho. assert (Hlo := H3 o Ho).
+      assert (Hbo : is_binop o = true).
+      { unfold ops in Ho. apply in_map_iff in Ho. destruct Ho as ([o' uo] & E1 & E2). cbn in E1. subst o'.
+        unfold tail_ok in H2. rewrite Forall_forall in H2. apply (H2 _ E2). }
+      destruct (H_binop o Hbo) as (_ & _ & Hr1 & _).
+      destruct tail as [|t tl]; cbn; auto. destruct H7 as (l & Hl & Hm & Hle). exists l. repeat split; auto. lia.
+    - destruct tail as [|t tl]; cbn; auto. destruct H7 as (l & Hl & Hm & Hle). eauto.
+    - apply Loop_end. exact H7.
   Qed.
 
   Hypothesis H_binop_pos : forall t, is_binop t = true -> 0 < L t.
@@ -772,5 +827,260 @@ Section Correct.
           -- destruct fm as [|fm]; [discriminate|]. rewrite stmts_semi in Hrec by exact Es'.
              rewrite Hrec. reflexivity.
           -- rewrite Hrec. reflexivity.
+  Qed.
+
+  (* ====================================================================================== *)
+  (* extensions: an expression in continuation form, low postfix operators (++ --), if/else  *)
+
+  Lemma ops_binop : forall l o, tail_ok l -> In o (ops l) -> is_binop o = true.
+  Proof.
+    intros l o Hl Ho. unfold ops in Ho. apply in_map_iff in Ho. destruct Ho as ([o' uo] & E1 & E2).
+    cbn in E1. subst o'. unfold tail_ok in Hl. rewrite Forall_forall in Hl. apply (Hl _ E2).
+  Qed.
+
+  (* an expression behaves like a unit: after it the led loop of the SAME level goes on *)
+  Lemma alt_cps : forall (a : alt tok) rbp more res m,
+    unit_ok (fst a) -> tail_ok (snd a) -> 0 <= rbp <= maxr ->
+    (forall o, In o (ops (snd a)) -> rbp < L o) ->
+    (forall o, In o (ops (snd a)) -> stops (R o) more) -> headok more -> (1 <= m)%nat ->
+    Loop rbp (split_alt a) more res m ->
+    Expr rbp (alt_tokens tok a ++ more) res (2 * length (alt_tokens tok a) + m + 1).
+  Proof.
+    intros [u l] rbp more res m Hu Hl Hrbp Hall Hmore Hhead Hm Hk. cbn [fst snd] in *.
+    destruct u as [ps x qs]. destruct Hu as (Hps & Hx & Hqs). cbn [u_pre u_atom u_post] in *.
+    assert (Hloop : Loop rbp (unit_tree' ps x qs) (tail_tokens l ++ more) res (2 * length (tail_tokens l) + m)).
+    { apply (Qc (length l) l (le_n _) (mkUnit ps x qs) [] rbp maxl more res m); auto.
+      - repeat split; auto.
+      - constructor.
+      - intros o [].
+      - destruct l as [|[o uo] l']; auto. inversion Hl; subst. destruct H1 as (Hb & _). cbn in Hb.
+        destruct (H_binop o Hb) as (_ & _ & _ & _ & Hmx & _). exact Hmx. }
+    assert (HE := unit_U2 ps x qs rbp (tail_tokens l ++ more) _ _ Hps Hx Hqs ltac:(lia)
+                    (headok_tail' l more Hl Hhead) Hloop).
+    unfold alt_tokens, PrattSpec.unit_tokens. cbn [fst snd u_pre u_atom u_post].
+    replace (((ps ++ x :: qs) ++ tail_tokens l) ++ more) with (ps ++ x :: qs ++ tail_tokens l ++ more)
+      by (repeat rewrite <- app_assoc; cbn [app]; repeat rewrite <- app_assoc; reflexivity).
+    eapply Expr_weaken. exact HE. repeat (rewrite app_length; cbn [length]). lia.
+  Qed.
+
+  Lemma stops_of_level : forall (a : alt tok) rbp tail, tail_ok (snd a) ->
+    (forall o, In o (ops (snd a)) -> rbp < L o) -> stops rbp tail ->
+    forall o, In o (ops (snd a)) -> stops (R o) tail.
+  Proof.
+    intros a rbp tail Hl Hall Hst o Ho. assert (Hlo := Hall o Ho).
+    destruct (H_binop o (ops_binop _ _ Hl Ho)) as (_ & _ & Hr1 & _).
+    destruct tail as [|t tl]; cbn; auto. destruct Hst as (l & Hl' & Hm & Hle). exists l. repeat split; auto. lia.
+  Qed.
+
+  Lemma stops_headok : forall rbp tail, stops rbp tail -> headok tail.
+  Proof. intros rbp [|t tl]; cbn; auto. intros (l & ? & ? & ?). eauto. Qed.
+
+  (* an expression at ANY level rbp below all of its operators *)
+  Theorem expr_level_correct : forall (a : alt tok) rbp tail f,
+    unit_ok (fst a) -> tail_ok (snd a) -> 0 <= rbp <= maxr ->
+    (forall o, In o (ops (snd a)) -> rbp < L o) -> stops rbp tail ->
+    (f >= fuel_for tok (alt_tokens tok a))%nat ->
+    expr f rbp (alt_tokens tok a ++ tail) = ROk (split_alt a, tail).
+  Proof.
+    intros a rbp tail f Hu Hl Hrbp Hall Hst Hf.
+    apply (alt_cps a rbp tail (split_alt a, tail) 1%nat); auto.
+    - eapply stops_of_level; eauto.
+    - eapply stops_headok; eauto.
+    - apply Loop_end; auto.
+    - unfold fuel_for in Hf. lia.
+  Qed.
+
+  (* ---- low postfix operators: ++ and -- ---- *)
+  Variable is_lowpost : tok -> bool.
+  Hypothesis H_lowpost : forall q, is_lowpost q = true ->
+    lbp q = Some (L q) /\ (exists h, led q = Some (LPostfix h)) /\ 0 < L q /\ L q <= maxl.
+
+  Lemma Loop_lowpost : forall rbp left q rest res n,
+    is_lowpost q = true -> rbp < L q ->
+    Loop rbp (Post q left) rest res n -> Loop rbp left (q :: rest) res (S n).
+  Proof.
+    unfold Loop; intros. destruct f; [lia|].
+    destruct (H_lowpost q H) as (Hl & (h & Hh) & _).
+    rewrite (loop_S tok lbp nud led is_else led_err eof_tok). rewrite Hl.
+    replace (rbp >=? L q) with false by (rewrite Z.geb_leb; symmetry; apply Z.leb_gt; lia).
+    rewrite Hh. apply H1. lia.
+  Qed.
+
+  (* E q : the postfix operator applies to the whole expression E when every operator of E binds
+     tighter than q (L q <= R o) and the level it is read at is below q *)
+  Theorem expr_postfix : forall (a : alt tok) q rbp tail f,
+    unit_ok (fst a) -> tail_ok (snd a) -> is_lowpost q = true ->
+    0 <= rbp <= maxr -> rbp < L q ->
+    (forall o, In o (ops (snd a)) -> rbp < L o /\ L q <= R o) -> stops rbp tail ->
+    (f >= fuel_for tok (alt_tokens tok a ++ [q]))%nat ->
+    expr f rbp (alt_tokens tok a ++ q :: tail) = ROk (Post q (split_alt a), tail).
+  Proof.
+    intros a q rbp tail f Hu Hl Hq Hrbp Hlq Hall Hst Hf.
+    destruct (H_lowpost q Hq) as (Hlbp & _ & Hpos & Hmx).
+    apply (alt_cps a rbp (q :: tail) (Post q (split_alt a), tail) 2%nat); auto.
+    - intros o Ho. apply Hall; auto.
+    - intros o Ho. cbn. exists (L q). repeat split; auto. apply Hall; auto.
+    - cbn. eauto.
+    - apply Loop_lowpost; auto. apply Loop_end; auto.
+    - unfold fuel_for in Hf. repeat (rewrite app_length in Hf; cbn [length] in Hf). lia.
+  Qed.
+
+  (* lhs = E q : inside the right operand of an operator that binds weaker than q *)
+  Theorem assign_postfix : forall u asg (a : alt tok) q tail f,
+    unit_ok u -> is_binop asg = true -> R asg < L q ->
+    unit_ok (fst a) -> tail_ok (snd a) -> is_lowpost q = true ->
+    (forall o, In o (ops (snd a)) -> R asg < L o /\ L q <= R o) -> stops 0 tail ->
+    (f >= fuel_for tok (unit_tokens u ++ asg :: alt_tokens tok a ++ [q]))%nat ->
+    expr f 0 (unit_tokens u ++ asg :: alt_tokens tok a ++ q :: tail)
+    = ROk (Bin asg (unit_tree u) (Post q (split_alt a)), tail).
+  Proof.
+    intros u asg a q tail f Hu Hasg Hrq Hua Hla Hq Hall Hst Hf.
+    destruct (H_binop asg Hasg) as ((h & Hled) & Hlbp & Hr1 & Hr2 & Hlm & Hr0 & Hrm & Hras).
+    destruct (H_lowpost q Hq) as (Hqlbp & _ & Hqpos & Hqmx).
+    destruct u as [ps x qs]. destruct Hu as (Hps & Hx & Hqs).
+    unfold PrattSpec.unit_tokens in *. cbn [u_pre u_atom u_post] in *.
+    assert (Hst9 : stops (R asg) tail).
+    { destruct tail as [|t tl]; cbn; auto. destruct Hst as (l & Hl' & Hm & Hle). exists l. repeat split; auto. lia. }
+    assert (HE : Expr (R asg) (alt_tokens tok a ++ q :: tail) (Post q (split_alt a), tail)
+                      (fuel_for tok (alt_tokens tok a ++ [q]))).
+    { intros f' Hf'. apply expr_postfix; auto; lia. }
+    assert (HL : Loop 0 (unit_tree' ps x qs) (asg :: alt_tokens tok a ++ q :: tail)
+                      (Bin asg (unit_tree' ps x qs) (Post q (split_alt a)), tail)
+                      (S (Nat.max (fuel_for tok (alt_tokens tok a ++ [q])) 1))).
+    { eapply Loop_bin with (l := L asg) (r := R asg) (h := h) (x := Post q (split_alt a)) (rest' := tail);
+        [exact Hlbp | apply H_binop_pos; auto | exact Hled | exact HE | apply Loop_end; auto ]. }
+    assert (HU := unit_U2 ps x qs 0 (asg :: alt_tokens tok a ++ q :: tail) _ _ Hps Hx Hqs ltac:(lia)
+                    ltac:(cbn; eauto) HL).
+    replace ((ps ++ x :: qs) ++ asg :: alt_tokens tok a ++ q :: tail)
+      with (ps ++ x :: qs ++ asg :: alt_tokens tok a ++ q :: tail)
+      by (rewrite <- app_assoc; reflexivity).
+    apply HU. unfold fuel_for in *. repeat (rewrite app_length in *; cbn [length] in *). lia.
+  Qed.
+
+  (* ---- if / else ---- *)
+  Definition stops0 (ts : list tok) : Prop :=
+    match ts with [] => True | t :: _ => exists l, lbp t = Some l /\ l <= 0 end.
+  Definition no_else (ts : list tok) : Prop :=
+    match ts with
+    | t :: _ => is_else t = false
+    | [] => match eof_tok with Some e => is_else e = false | None => True end
+    end.
+  (* "ts parses to x at level r": followed by any statement boundary satisfying P *)
+  Definition PA (P : list tok -> Prop) (r : Z) (ts : list tok) (x : tree tok) : Prop :=
+    forall tail, stops0 tail -> P tail -> Expr r (ts ++ tail) (x, tail) (fuel_for tok ts).
+  Definition Any (ts : list tok) : Prop := True.
+
+  Lemma stops0_stops : forall rbp tail, 0 <= rbp -> stops0 tail -> stops rbp tail.
+  Proof.
+    intros rbp [|t tl] Hr; cbn; auto. intros (l & Hl & Hle). exists l. destruct H_max. repeat split; auto; lia.
+  Qed.
+
+  Lemma Expr_ifelse : forall rbp i r1 r2 r3 rest c rest1 t e rest3 x rest4 res n1 n2 n3 n4,
+    nud i = NIf r1 r2 r3 ->
+    Expr r1 rest (c, rest1) n1 -> Expr r2 rest1 (t, e :: rest3) n2 -> is_else e = true ->
+    Expr r3 rest3 (x, rest4) n3 -> Loop rbp (Cond i c t (Some (e, x))) rest4 res n4 ->
+    Expr rbp (i :: rest) res (S (Nat.max (Nat.max n1 n2) (Nat.max n3 n4))).
+  Proof.
+    unfold Expr, Loop; intros. destruct f; [lia|].
+    rewrite (expr_S tok lbp nud led is_else led_err eof_tok). rewrite H.
+    rewrite H0 by lia. cbn [bind fst snd]. rewrite H1 by lia. cbn [bind fst snd].
+    rewrite H2. rewrite H3 by lia. cbn [bind fst snd]. apply H4. lia.
+  Qed.
+
+  Lemma Expr_if_noelse : forall rbp i r1 r2 r3 rest c rest1 t rest2 res n1 n2 n4,
+    nud i = NIf r1 r2 r3 ->
+    Expr r1 rest (c, rest1) n1 -> Expr r2 rest1 (t, rest2) n2 -> no_else rest2 ->
+    Loop rbp (Cond i c t None) rest2 res n4 ->
+    Expr rbp (i :: rest) res (S (Nat.max (Nat.max n1 n2) n4)).
+  Proof.
+    unfold Expr, Loop; intros. destruct f; [lia|].
+    rewrite (expr_S tok lbp nud led is_else led_err eof_tok). rewrite H.
+    rewrite H0 by lia. cbn [bind fst snd]. rewrite H1 by lia. cbn [bind fst snd].
+    unfold no_else in H2. destruct rest2 as [|e r].
+    - destruct eof_tok as [e|]; [rewrite H2|]; cbn [bind fst snd]; apply H3; lia.
+    - rewrite H2. cbn [bind fst snd]. apply H3. lia.
+  Qed.
+
+  (* if C T else E, for ALL nestings: whatever C, T, E are, as long as they parse (to c, t, x) in
+     front of a statement boundary, the if form parses to (cond c t x); E may itself be an if
+     form (else-if chains), P is the condition E puts on what follows *)
+  Theorem if_else_PA : forall P i r1 r2 r3 C c T t e E x rbp,
+    nud i = NIf r1 r2 r3 -> 0 <= rbp ->
+    PA Any r1 C c -> PA Any r2 T t -> PA P r3 E x ->
+    is_else e = true -> stops0 (e :: E) -> stops0 T -> T <> [] ->
+    PA P rbp (i :: C ++ T ++ e :: E) (Cond i c t (Some (e, x))).
+  Proof.
+    intros P i r1 r2 r3 C c T t e E x rbp Hn Hr HC HT HE He Hse HsT HTne tail Hst HP.
+    assert (H1 : Expr r1 (C ++ (T ++ e :: E ++ tail)) (c, T ++ e :: E ++ tail) (fuel_for tok C)).
+    { apply HC; [|exact I]. destruct T as [|th T']; [congruence|]. exact HsT. }
+    assert (H2 : Expr r2 (T ++ (e :: E ++ tail)) (t, e :: E ++ tail) (fuel_for tok T)).
+    { apply HT; [|exact I]. exact Hse. }
+    assert (H3 : Expr r3 (E ++ tail) (x, tail) (fuel_for tok E)) by (apply HE; auto).
+    replace ((i :: C ++ T ++ e :: E) ++ tail) with (i :: C ++ (T ++ e :: E ++ tail))
+      by (cbn [app]; repeat rewrite <- app_assoc; cbn [app]; repeat rewrite <- app_assoc; reflexivity).
+    eapply Expr_weaken.
+    - eapply Expr_ifelse; eauto. apply Loop_end. apply stops0_stops; auto.
+    - unfold fuel_for. cbn [length]. repeat (rewrite app_length; cbn [length]). lia.
+  Qed.
+
+  Theorem if_noelse_PA : forall i r1 r2 r3 C c T t rbp,
+    nud i = NIf r1 r2 r3 -> 0 <= rbp ->
+    PA Any r1 C c -> PA no_else r2 T t -> stops0 T -> T <> [] ->
+    PA no_else rbp (i :: C ++ T) (Cond i c t None).
+  Proof.
+    intros i r1 r2 r3 C c T t rbp Hn Hr HC HT HsT HTne tail Hst HP.
+    assert (H1 : Expr r1 (C ++ (T ++ tail)) (c, T ++ tail) (fuel_for tok C)).
+    { apply HC; [|exact I]. destruct T as [|th T']; [congruence|]. exact HsT. }
+    assert (H2 : Expr r2 (T ++ tail) (t, tail) (fuel_for tok T)) by (apply HT; auto).
+    replace ((i :: C ++ T) ++ tail) with (i :: C ++ (T ++ tail))
+      by (cbn [app]; repeat rewrite <- app_assoc; reflexivity).
+    eapply Expr_weaken.
+    - eapply Expr_if_noelse; eauto. apply Loop_end. apply stops0_stops; auto.
+    - unfold fuel_for. cbn [length]. repeat (rewrite app_length; cbn [length]). lia.
+  Qed.
+
+  (* every expression of the documented grammar parses (at any level below its operators) *)
+  Theorem doc_PA : forall (a : alt tok) rbp P,
+    unit_ok (fst a) -> tail_ok (snd a) -> 0 <= rbp <= maxr ->
+    (forall o, In o (ops (snd a)) -> rbp < L o) ->
+    PA P rbp (alt_tokens tok a) (split_alt a).
+  Proof.
+    intros a rbp P Hu Hl Hrbp Hall tail Hst _ f Hf.
+    apply expr_level_correct; auto. apply stops0_stops; auto. lia.
+  Qed.
+
+  (* o U  where U is anything that parses at level R o (an if form, ...):  x = if a b else c *)
+  Theorem binop_then_PA : forall P u o Y y,
+    unit_ok u -> is_binop o = true -> PA P (R o) Y y ->
+    PA P 0 (unit_tokens u ++ o :: Y) (Bin o (unit_tree u) y).
+  Proof.
+    intros P u o Y y Hu Ho HY tail Hst HP.
+    destruct (H_binop o Ho) as ((h & Hled) & Hlbp & Hr1 & Hr2 & Hlm & Hr0 & Hrm & Hras).
+    destruct u as [ps x qs]. destruct Hu as (Hps & Hx & Hqs).
+    unfold PrattSpec.unit_tokens in *. cbn [u_pre u_atom u_post] in *.
+    assert (HL : Loop 0 (unit_tree' ps x qs) (o :: Y ++ tail) (Bin o (unit_tree' ps x qs) y, tail)
+                      (S (Nat.max (fuel_for tok Y) 1))).
+    { eapply Loop_bin with (l := L o) (r := R o) (h := h) (x := y) (rest' := tail);
+        [exact Hlbp | apply H_binop_pos; auto | exact Hled | apply HY; auto | apply Loop_end; apply stops0_stops; auto; lia ]. }
+    assert (HU := unit_U2 ps x qs 0 (o :: Y ++ tail) _ _ Hps Hx Hqs ltac:(destruct H_max; lia)
+                    ltac:(cbn; eauto) HL).
+    replace (((ps ++ x :: qs) ++ o :: Y) ++ tail) with (ps ++ x :: qs ++ o :: Y ++ tail)
+      by (repeat rewrite <- app_assoc; cbn [app]; repeat rewrite <- app_assoc; reflexivity).
+    eapply Expr_weaken. exact HU.
+    unfold fuel_for. repeat (rewrite app_length; cbn [length]). lia.
+  Qed.
+
+  (* a chain of right-associative operators of one level nests to the right:
+     a = b = c  is  (= a (= b c)) *)
+  Lemma right_chain : forall u0 o u1 rest,
+    (forall y, In y (ops rest) -> prec y = prec o /\ rassoc y = true) ->
+    split_alt (u0, (o, u1) :: rest) = Bin o (unit_tree u0) (split_alt (u1, rest)).
+  Proof.
+    intros. change ((o, u1) :: rest) with ([] ++ (o, u1) :: rest).
+    rewrite (split_root u0 [] o u1 rest).
+    - reflexivity.
+    - intros z [].
+    - intros y Hy. destruct (H y Hy) as (E1 & E2). unfold replaces. rewrite E1, E2.
+      rewrite Z.ltb_irrefl, Z.eqb_refl. reflexivity.
   Qed.
 End Correct.
